@@ -1,7 +1,7 @@
 (* C06 — Client affinity (ip_hash) and minimal remapping (ip_hash_consistent).
    Statements only; proofs in Proofs/HashProofs.v and Proofs/StrategyProofs.v.
    jump_hash iterates jh_cond/jh_body/jh_ret, which go2coq regenerates from the current source. *)
-From Helios Require Import Base.Prelude Base.Wrap Model.Hash Model.Strategy Proofs.HashProofs Proofs.StrategyProofs.
+From Helios Require Import Model.Conc Proofs.PickFlipProofs Base.Prelude Base.Wrap Model.Hash Model.Strategy Proofs.HashProofs Proofs.StrategyProofs.
 
 (* the jump-hash loop terminates and lands in range, for every 64-bit key and every pool size *)
 Theorem C06_jump_range :
@@ -43,3 +43,27 @@ Example C06_nonvacuous :
   jump_hash 975451704 3 = Some 2 /\ jump_hash 12345678901234567 1000 = Some 366
   /\ fnv32a [49; 48; 46; 48; 46; 48; 46; 49] = 3737042573.
 Proof. vm_compute. repeat split; reflexivity. Qed.
+
+(* "... the choice is a valid eligible backend, regardless of concurrent traffic": one pick of any strategy (the critical
+   sections of LoadBalancer.NextBackend: every flag is read once under that backend's lock) against any number of concurrent
+   ejections and lazy re-admissions, under EVERY schedule: a finished pick is nil only if no backend stayed healthy throughout
+   the call, and it is never a backend that stayed ejected throughout the call.  (Step-level model Model/Conc.v scenario 4,
+   tied to the real code by schedule replay.) *)
+Theorem C06_valid_under_concurrent_flips :
+  forall kind client init kinds sched,
+    zlen init < 2147483648 -> (forall v, In v init -> v = 0 \/ v = 1) ->
+    (forall k, In k kinds -> k = 0 \/ (11 <= k < 20) \/ 21 <= k) ->
+    let ths := map (s4_thread kind (zlen init) client) kinds in
+    let ts0 := map (fun _ : Z => mkTS (([] : list bool), -1) (Some 0)) kinds in
+    let s0 := map (fun i => (Z.eqb i 1, false)) init in
+    let ts := snd (fst (run_sched ths s0 ts0 sched [])) in
+    forall i st, nth_error kinds i = Some 0 -> nth_error ts i = Some st -> ts_pc st = None ->
+      res_ok init kinds (snd (ts_local st)) = true.
+Proof. exact s4_all_schedules. Qed.
+Print Assumptions C06_valid_under_concurrent_flips.
+
+(* non-vacuity: ip_hash over three backends, the first one ejected while the pick is between its second and third read:
+   the pick finishes and is one of the backends that stayed healthy *)
+Example C06_flip_nonvacuous :
+  fst (s4_run 3 [1; 1; 1] [49; 48; 46; 48; 46; 48; 46; 50] [0; 11] [0; 0; 0; 1; 0]) = [0; 1; 1; 3; 0].
+Proof. vm_compute. reflexivity. Qed.
